@@ -163,6 +163,8 @@ def run_world_property(out, binp, pid, pred, profiles, facets, sig, extra_head="
     dist = {}
     for prof, nq, nt in profiles:
         n = nt if thorough else nq
+        if not thorough and (getattr(out, "drift", None) or {}).get("changed_in_property_files"):
+            n *= 2   # a function the property is anchored in differs from the body the model was validated against
         if gen_fn:
             hs, errs = gen_fn(binp, prof, thorough)
         else:
